@@ -49,9 +49,9 @@ Definition cfg_fixed : pcfg :=
    argument of a conforming type (an undeclared argument is still let through: what is left of finding D19d) *)
 Definition cfg_gt (gt : bool) : pcfg :=
   {| fix_untyped := true; fix_goal_arity := true; fix_positional := true; fix_apps := true; fix_goal_types := gt |}.
-(* the configuration the correspondence checks (Corr/C05.v, Corr/C09.v) run against: the tree as it is.
-   TO DO when proposed_fixes/D19d.diff is committed to /repo: [cfg_gt true]. *)
-Definition cfg_current : pcfg := cfg_gt false.
+(* the configuration the correspondence checks (Corr/C05.v, Corr/C09.v) run against: the tree as it is, i.e. WITH the
+   repair D19e = 43c9edb (proposed_fixes/D19d.diff, committed). *)
+Definition cfg_current : pcfg := cfg_gt true.
 
 (* ---------- object model ---------- *)
 Definition fkey := (string * list string)%type.
